@@ -215,6 +215,25 @@ def run_shard(desc, ctx):
             rng = random.Random(core.h64('C01s/%d/%d' % (desc['seed'], idx)))
             run_one(mon, tokens, rng, 1 + idx % 3, idx, 'enum-sampled')
         rng = ctx.rng
+        # a few LARGE outputs (hundreds to thousands of elements): buffer / chunking thresholds of the writer
+        for i in range(4 if ctx.tier == 'quick' else 60):
+            tokens = random_skeleton(rng, max_elems=7, max_depth=2)
+            elems, greps = decorate(tokens, rng, 1)
+            for e in elems:
+                e.rep = 1
+            greps = [1] * len(greps)
+            total = 1
+            for e in rng.sample(elems, min(len(elems), 2)):
+                e.rep = rng.choice([12, 25, 40, 64])
+                total *= e.rep
+            if elems:
+                elems[0].rep = rng.choice([1, 2, 3])
+            abbr = ref_tree.spell(tokens, elems, greps)
+            items, stats = ref_tree.build(tokens, iter(elems), iter(greps))
+            expected = ref_tree.unroll(items)
+            if 300 <= len(ref_tree.flatten(expected)) // 2 <= 6000:
+                style, fmt = CONFIGS[i % len(CONFIGS)]
+                mon.check(abbr, _json(expected), style, fmt, 'large-output', stats)
         for i in range(desc['random']):
             tokens = random_skeleton(rng)
             for v in range(4):
